@@ -88,13 +88,13 @@ def representatives():
     return reps, rest
 
 
-DEEP = ["CFGLoader", "UnitGIRLoader", "StmtStatusLoader[p3]", "CalleeParameterMapping[p3]"]
+DEEP = ["CFGLoader", "StmtStatusLoader[p3]", "UnitGIRLoader", "CalleeParameterMapping[p3]"]
 
 
 def history_job(job):
     """Child: run a chunk of histories for one family under one configuration."""
     fam, cfg, hists = job["family"], tuple(job["cfg"]), job["histories"]
-    root = os.path.join(common.scratch(), "c15h")
+    root = os.path.join(common.scratch(), "c15h_%d" % os.getpid())
     os.makedirs(root, exist_ok=True)
     stats = {"histories": 0, "reads": 0, "sources": {}, "multi_bundle": 0, "with_failure": 0, "by_sig": {}}
     fails = []
@@ -159,6 +159,8 @@ def replay(chk, path):
 
 
 def main():
+    if "VERIF_SCRATCH" not in os.environ and os.path.isdir("/dev/shm") and os.access("/dev/shm", os.W_OK):
+        os.environ["VERIF_SCRATCH"] = "/dev/shm"      # thousands of tiny workspaces: a memory file system halves the wall time
     lianrun.prepare_zygote(warm=False)
     chk = common.Check(PROP, rule=(
         "per loader family: all id-symmetry-reduced histories of <= d operations over save(id, content in {A,B,empty}) / "
@@ -176,14 +178,17 @@ def main():
     jobs = []
     d_all, d_deep = (3, 4) if not thorough else (4, 5)
     h_all = enum_histories(d_all)
-    h_deep = enum_histories(d_deep)
+    h_small = enum_histories(d_all, ("A", "B"), 2)
+    h_deep = [h for h in enum_histories(d_deep, ("A", "B"), 2) if len(h) == d_deep]   # one step deeper, two contents, two ids
     plan = []
     for fam in reps if not thorough else list(lmon.families()):
-        for cfg in ([CFG_TIGHT, CFG_LOOSE] if not thorough else [CFG_TIGHT, CFG_LOOSE, CFG_MID]):
-            plan.append((fam, cfg, h_all, 2 if not thorough else 8))
-    for fam in DEEP:
-        for cfg in ([CFG_TIGHT, CFG_MID] if not thorough else [CFG_TIGHT, CFG_MID2]):
-            plan.append((fam, cfg, [h for h in h_deep if len(h) == d_deep], 8 if not thorough else 48))
+        plan.append((fam, CFG_TIGHT, h_all, 2 if not thorough else 8))
+        plan.append((fam, CFG_LOOSE, h_small if not thorough else h_all, 1 if not thorough else 8))
+        if thorough:
+            plan.append((fam, CFG_MID, h_small, 2))
+    for fam in (DEEP[:2] if not thorough else DEEP):
+        for cfg in ([CFG_TIGHT] if not thorough else [CFG_TIGHT, CFG_MID2]):
+            plan.append((fam, cfg, h_deep, 6 if not thorough else 32))
     for fam, cfg, hs, parts in plan:
         for c in chunked(hs, parts):
             jobs.append({"label": "exhaustive", "family": fam, "cfg": cfg, "histories": c})
